@@ -23,7 +23,7 @@ THEOREMS = [
     "C10_hashlin_init", "C10_hashlin_insert", "C10_hashlin_remove", "C10_hashlin_bucket", "C10_hashlin_loops_exit",
     "C10_invariant_all_histories", "C10_get_all", "C10_search_by_ski",
     "C10_add", "C10_remove", "C10_src_remove", "C10_copy", "C10_swap", "C10_notify_diff",
-    "C10_callbacks", "C10_refines_all_histories", "C10_spec_is_set", "C10_refuted",
+    "C10_callbacks", "C10_refines_all_histories", "C10_spec_is_set", "C10_full_holds",
     "C10_full_of_fix", "C10_full_for_fixed_model", "C10_code_constants",
 ]
 NT = 8
@@ -283,7 +283,7 @@ def judge(exe_i, exe_m, ops, want_model=True):
 def ddmin(ops, test):
     """classic delta debugging on the op list; test(sub) -> True if the failure is still there"""
     n = 2
-    budget = 400
+    budget = 900
     while len(ops) >= 2 and budget > 0:
         chunk = max(1, len(ops) // n)
         reduced = False
@@ -602,7 +602,9 @@ def scripts(tier, rnd, pools):
     else:
         peaks = [40, 70, 140, 300, 600, 1200, 2500]
         nmixed, nsync, reps = 1500, 400, 12
-    for _ in range(reps):
+    for rep in range(reps):
+        if rep:
+            rnd = vlib.rng(10 + 7919 * rep)          # thorough: an independent generator stream per repetition
         for p in peaks:
             for variant in ("plain", "by-source", "regrow", "one-as"):
                 out.append(("sweep-%d-%s" % (p, variant), gen_sweep(rnd, pools, bit0, p, variant)))
@@ -632,7 +634,10 @@ def report(chk, exe_i, exe_m, name, ops, v, kind, pr):
     def still(sub):
         w = judge(exe_i, exe_m, sub, want_model=(kind == "tie"))
         return {"tie": w.tie, "spec": w.spec, "known": w.known}[kind] is not None
-    small = ddmin(list(ops), still)
+    start = [o for o in ops if not o.startswith("shape")]      # model-only probes never matter for a failure
+    if not still(start):
+        start = list(ops)
+    small = ddmin(start, still)
     w = judge(exe_i, exe_m, small)
     at = {"tie": w.tie, "spec": w.spec, "known": w.known}[kind] or (len(small) - 1, "(not reproduced after shrinking)")
     i = min(at[0], len(small) - 1)
@@ -752,7 +757,7 @@ def run(chk):
         "single-threaded histories (locking is properties C16 / C06)",
     ]
     chk.trusted += ["python set oracle `Spec` in tools/props/C10.py", "harness/spki_ops.c record encoding / callback recorder"]
-    if not pr.ok and not chk.violations:
+    if not pr.ok and reported["tie"] == 0 and reported["spec"] == 0:
         chk.proof_broken(pr, "%d scripts / %d ops on the real code: Impl = Model = Spec everywhere" % (len(all_scripts), nops))
 
 
